@@ -881,8 +881,14 @@ fn main() {
                 continue;
             }
         };
+        // the scenario's thread: 64 MiB of native stack unless the scenario asks for the size a host's main thread has
+        let stack_mib = sc
+            .get("config")
+            .and_then(|c| c.get("stack_mib"))
+            .and_then(|v| v.as_u64())
+            .unwrap_or(64) as usize;
         let h = std::thread::Builder::new()
-            .stack_size(64 << 20)
+            .stack_size(stack_mib << 20)
             .spawn(move || {
                 let out = run_scenario(&sc);
                 gc_teardown();
